@@ -152,8 +152,11 @@ def classify(wl, pt, pid):
             if all(dump.get(k) == c[k] for k in keys):
                 i0 = acc[p][0]
                 i1 = acc[p + 1][0] if p + 1 < len(acc) else len(evs)
-                during = [e for e in evs[i0 + 1:i1] if e["e"] in ("Ack", "Crash")]
-                if any(e.get("rot") != evs[i0].get("rot") for e in during):
+                # the rotation must have started while the batch was in flight: between its Accept and
+                # its own Ack (or the crash, if it never returned)
+                acks = [e for e in evs[i0 + 1:i1] if e["e"] == "Ack"]
+                end = acks[0] if acks else next((e for e in evs[i0 + 1:] if e["e"] == "Crash"), None)
+                if end is not None and end.get("rot") != evs[i0].get("rot"):
                     return "batch-split"
     return None
 
@@ -171,6 +174,32 @@ def gc_inversion(wl, pt, pev):
             for w in e["w"]:
                 older.setdefault(w["k"], set()).add(w["v"] if w["v"] != "" else "NOTFOUND")
     diff = [k for k in wl["keys"] if pev["dump"].get(k) != rec.get(k)]
+    return bool(diff) and all(pev["dump"].get(k) in older.get(k, set()) for k in diff)
+
+
+def gc_inversion_recovered(wl, pt, pev):
+    """Same root cause seen at recovery: a value-log GC ran INSIDE the workload (transactional data, value
+    log), and the recovered dump differs from the newest accepted state only by showing, for some keys,
+    a value an earlier accepted transaction wrote to them (or their initial absence is not involved)."""
+    if wl.get("mode") != "txn" or not wl["cfg"].get("vlog"):
+        return False
+    ops = wl["ops"] if isinstance(wl["ops"], list) else []
+    nacc = sum(1 for e in pt["events"] if e["e"] == "Accept")
+    seen, gc_before = 0, False
+    for op in ops:                       # a GC operation executed before the last accepted batch finished or after it
+        if op["op"] == "Write":
+            seen += 1
+        elif op["op"] == "GC" and seen >= 1 and seen <= nacc:
+            gc_before = True
+    if not gc_before:
+        return False
+    batches = [e["w"] for e in pt["events"] if e["e"] == "Accept"]
+    newest = contents(batches, len(batches), wl["keys"])
+    older = {}
+    for b in batches:
+        for w in b:
+            older.setdefault(w["k"], set()).add(w["v"] if w["v"] != "" else "NOTFOUND")
+    diff = [k for k in wl["keys"] if pev["dump"].get(k) != newest[k]]
     return bool(diff) and all(pev["dump"].get(k) in older.get(k, set()) for k in diff)
 
 
@@ -274,6 +303,8 @@ def run(ctx):
         wl, pt = results[ti]
         cls = classify(wl, pt, pid) if pev["e"] == "Recovered" and pev.get("open") else None
         if pev["e"] == "Post" and gc_inversion(wl, pt, pev):
+            cls = "gc-version-inversion"
+        if pev["e"] == "Recovered" and cls is None and gc_inversion_recovered(wl, pt, pev):
             cls = "gc-version-inversion"
         fid = "%s-%s" % (pid, cls) if cls else None
         if fid and fid in known:
